@@ -177,21 +177,38 @@ DIR = re.compile(r'^([a-zA-Z]) (\$[0-9A-Fa-f]{4}|\d+)')
 
 
 def out_cases(args):
-    seed, n_cases, wd = args
+    seed, n_cases, wd = args[:3]
+    sweeps = list(args[3]) if len(args) > 3 else []       # lists of opcode-slot indexes, one image each
     from ..lib import cbuild
     cbuild.repo_only()
     from skoolkit import sna2ctl, sna2skool, skool2bin
+    from . import simdrv
+    slots = simdrv.slots()
     rnd = random.Random(seed)
     sub = os.path.join(wd, 'o%d' % seed)
     os.makedirs(sub, exist_ok=True)
     signal.signal(signal.SIGVTALRM, _alarm)
     out = []
-    for k in range(n_cases):
+    for k in range(n_cases + len(sweeps)):
         kind = ('code', 'struct', 'random', 'prefix', 'struct', 'text', 'zeros', 'struct')[k % 8]
+        if k >= n_cases:
+            kind = 'sweep'
         size = rnd.choice((16, 30, 60, 120, 250))
         org = rnd.choice((0x8000, 40000, 0x4000, 65536 - size, 65536 - size - 7))
         entry = None
-        if kind == 'struct':
+        if kind == 'sweep':
+            # every opcode slot once, as straight-line code: a decoder of sna2ctl that sizes one slot differently from
+            # the disassembler puts the following directives (-C) off the instruction boundaries
+            mem, sweep_starts = [], []
+            for si in sweeps[k - n_cases]:
+                ins = [rnd.randrange(256) if b is None else b for b in slots[si][0]] + [rnd.randrange(256) for _ in range(3)]
+                sweep_starts.append(len(mem))
+                mem += ins[:z80len.length(ins + [0, 0], 0)]
+            sweep_starts += [len(mem), len(mem) + 2]
+            mem += [0x3E, 0x07, 0xC9]
+            size = len(mem)
+            org = rnd.choice((0x8000, 40000))
+        elif kind == 'struct':
             org = rnd.choice((0x8000, 40000, 0x6000))
             mem, eoff = gen_structured(rnd, org)
             size = len(mem)
@@ -209,7 +226,7 @@ def out_cases(args):
         full[org:org + size] = mem
         start = org + rnd.choice((0, 0, rnd.randrange(0, size // 4)))
         end = org + size - rnd.choice((0, 0, 0, 1, 2, rnd.randrange(0, size // 4)))
-        if kind == 'struct':
+        if kind in ('struct', 'sweep'):
             start, end = org, org + size
         binf = os.path.join(sub, 'i%d.bin' % k)
         open(binf, 'wb').write(bytes(mem))
@@ -217,7 +234,10 @@ def out_cases(args):
         mapaddrs = []
         mk = rnd.random()
         strict = 1
-        if kind == 'struct':
+        if kind == 'sweep':
+            # the code map of a straight-line run through the image (as a profiler that ignores jumps would record it)
+            mapaddrs = [org + x for x in sweep_starts]
+        elif kind == 'struct':
             mapaddrs = exec_trace(full, start, end, rnd, 2000, entry)
         elif mk < 0.6:
             mapaddrs = exec_trace(full, start, end, rnd)
@@ -235,9 +255,9 @@ def out_cases(args):
             args_ += ['-m', mapf]
         if rnd.random() < 0.3:
             args_.append('-h' if rnd.random() < 0.6 else '-l')
-        if rnd.random() < 0.3:
+        if rnd.random() < 0.3 or kind == 'sweep':
             args_.append('-C')
-        if rnd.random() < 0.3:
+        if rnd.random() < 0.3 and kind != 'sweep':
             args_.append('-r')
         for name, vals in (('TextChars', ('abcdefghijklmnopqrstuvwxyz ', 'ABC xyz.,')), ('TextMinLengthCode', (3, 8, 12)),
                            ('TextMinLengthData', (2, 3, 5))):
